@@ -21,6 +21,7 @@ type Col struct {
 	RefTable  string
 	RefCol    string
 	OnDelete  string // CASCADE, ...
+	Deferred  bool   // the reference is DEFERRABLE INITIALLY DEFERRED (violations surface at COMMIT)
 	FromMigID string
 }
 
@@ -398,6 +399,11 @@ func parseRef(c *Col, item []string) {
 			}
 			j = end + 1
 		}
+		for k := j; k < len(item); k++ {
+			if up(item[k]) == "DEFERRED" {
+				c.Deferred = true
+			}
+		}
 		for ; j+2 < len(item); j++ {
 			if up(item[j]) == "ON" && up(item[j+1]) == "DELETE" {
 				c.OnDelete = up(item[j+2])
@@ -434,4 +440,20 @@ func Debugf(format string, args ...any) {
 	if os.Getenv("VERIF_DEBUG") != "" {
 		fmt.Fprintf(os.Stderr, "DEBUG "+format+"\n", args...)
 	}
+}
+
+// Affinity is SQLite's column affinity of a declared type (https://www.sqlite.org/datatype3.html §3.1).
+func Affinity(declared string) string {
+	t := strings.ToUpper(declared)
+	switch {
+	case strings.Contains(t, "INT"):
+		return "INTEGER"
+	case strings.Contains(t, "CHAR"), strings.Contains(t, "CLOB"), strings.Contains(t, "TEXT"):
+		return "TEXT"
+	case strings.Contains(t, "BLOB"), t == "":
+		return "BLOB"
+	case strings.Contains(t, "REAL"), strings.Contains(t, "FLOA"), strings.Contains(t, "DOUB"):
+		return "REAL"
+	}
+	return "NUMERIC"
 }
